@@ -20,11 +20,6 @@ PROPS['C01'] = {
     'mismatch_counts': True,
     'assumptions': ['the node\'s own export at every commit (re-read from disk) is the abstraction function', MODEL_NOTE],
 }
-PROPS['C02'] = {
-    'level': 'proof',
-    'theorems': [],
-    'campaigns': [camp('ledger', 16, 200), camp('orders', 8, 100), camp('staking', 8, 100)],
-}
 PROPS['C03'] = {
     'level': 'proof',
     'modules': ['MinterProofs.Props.C04'],
@@ -44,7 +39,7 @@ PROPS['C04'] = {
 PROPS['C05'] = {
     'level': 'proof',
     'modules': ['MinterProofs.Props.C05'],
-    'theorems': ['Minter.C05_balance_only_sender', 'Minter.C05_moves_need_authorization', 'Minter.move_debit_guard', 'Minter.deliver_moves_guarded'],
+    'theorems': ['Minter.C05_balance_only_sender', 'Minter.C05_holdings_only_sender', 'Minter.C05_moves_need_authorization', 'Minter.move_debit_guard', 'Minter.move_holdings_guard', 'Minter.deliver_moves_guarded', 'Minter.issuer_none_of_not_redeem'],
     'campaigns': [camp('malformed', 16, 200), camp('mixed', 8, 100)],
     'mismatch_counts': True,
     'assumptions': [MODEL_NOTE, 'secp256k1 recovery is an oracle: the theorem speaks about the addresses the real RecoverPlain returned'],
@@ -65,7 +60,7 @@ PROPS['C18'] = {'level': 'proof', 'theorems': [], 'campaigns': [camp('staking', 
 PROPS['C19'] = {'level': 'proof', 'theorems': [], 'campaigns': [camp('staking', 24, 200), camp('ledger', 8, 100)]}
 PROPS['C20'] = {'level': 'proof', 'theorems': [], 'campaigns': [camp('governance', 32, 300), camp('staking', 8, 100)]}
 
-for _p in ['C06','C15','C22','C27']:
+for _p in ['C27']:   # C06, C15, C22: see the tx builder block below
     PROPS[_p] = {'level': 'proof', 'theorems': [], 'campaigns': [camp('checktx', 12, 100), camp('orders', 12, 100), camp('ledger', 8, 100)]}
 
 PROPS['C08'] = {'level': 'proof', 'modules': ['MinterProofs.Props.C08'], 'theorems': ['Minter.C08_commit_perm_invariant', 'Minter.C08_accumulate_perm_invariant', 'Minter.C08_rank_perm_invariant', 'Minter.C08_range_sites_safe', 'Minter.C08_commit_call_order'], 'modes': [{'mode': 'determinism', 'args': ['-profile', 'mixed', '-seed', '{seed}', '-n', '4', '-tier', '{tier}', '-keep', '{keep}']}]}
@@ -197,6 +192,75 @@ PROPS['C18'] = {
     'mismatch_counts': True,
     'assumptions': BEGIN_ASSUMPTIONS,
     'claim_draft': "Lean theorems about the BeginBlock model of the fixed code (punish-once fix ecfb9df), for all states, vote lists, evidence lists and oracle answers: SetValidatorAbsent switches the validator off (fresh bit array, toDrop, candidate offline) exactly when more than 12 of the 24 bits are set and jails the candidate until h+jail iff the block is outside a grace period; below the threshold only the bit changes; unknown addresses are ignored; absences move no value (absent_threshold, absent_below_threshold, absent_unknown_ignored, absence_moves_no_value, absent_jails_for_period); SetCandidateOn is rejected for every block <= jailedUntil whoever sends and accepted for the owner afterwards (jailed_cannot_switch_on, unjailed_owner_can_switch_on); the byzantine cut v - floor(95v/100) is the rounded-up 5% for every integer (byzantine_cut_is_ceil); a punishment cuts every stake and every unbonding fund of that candidate inside the window by exactly that amount, freezes the remainder at h+unbond, zeroes the stakes, drops the validator and credits the slashed pool (base coin) resp. burns the coin and moves CalculateSaleReturn of reserve to the slashed pool (byzantine_slash, byzantine_punishment, remainder_fund_exact, punished_has_no_stakes); evidence against an unknown / offline / already dropped validator is skipped and a validator is punished at most once per block whatever entries follow (byzantine_skips, skip_is_stable, punish_once); the whole BeginBlock conserves volume-holdings of every coin and the base total (begin_conserves, begin_preserves_conserved). Tie: kernel mode beginq (SetAbsent/SetPresent/CountAbsentTimes, Grace.IsGraceBlock, IsCandidateJailed vs the Lean definitions) + the S begin comparison and stakingTxMonitor of C16 on campaigns begin/staking/ledger; the separate monitor VIOL C18 candidate-punished-twice-in-one-block stays armed. Partial: absent_threshold is about one vote step (no theorem composes it over the whole vote list; covered by absence_moves_no_value and the node comparison); events are produced but not compared with the events DB.",
+}
+
+
+# ---------------------------------------------------------------------------------------------------------------
+# tx builder (final snapshot): all 37 transaction types are in the Lean model; a swap / commission through a pool that carries
+# limit orders is the only case the transaction model leaves to the orders component (driver: INFO unmodelled, state re-synchronised)
+TX_MODEL_NOTE = 'Theorems are about the Lean transaction model (MinterModel/Tx*.lean, all 37 types); the driver compares code, tags and every touched dump key with the node on every generated transaction; swaps / commissions through a pool that carries limit orders are outside the transaction model (orders component)'
+PROPS['C02'] = {
+    'level': 'partial', 'registered': False,
+    'modules': ['MinterProofs.Props.C02'],
+    'theorems': ['Minter.C02_partial_1_13_17_28_29', 'Minter.C02_partial_send', 'Minter.C02_partial_multisend', 'Minter.C02_partial_edit_owner',
+                 'Minter.C02_partial_mint', 'Minter.C02_partial_burn', 'Minter.C02_prologue_reject', 'Minter.amountsOk_sound'],
+    'campaigns': [camp('ledger', 16, 200), camp('orders', 8, 100), camp('staking', 8, 100)],
+    'mismatch_counts': True,
+    'assumptions': [TX_MODEL_NOTE, 'the node\'s own export at every commit (re-read from disk) is the abstraction function for the amountsOk monitor'],
+    'claim_draft': "Partial. Lean theorems: AmountsOk (no negative balance, reserve, volume, stake, pending update, waitlist entry, frozen fund, pool reserve or order volume; volume <= max supply; reserves of an existing pool > 0 - the Prop form of the executable monitor, amountsOk_sound) is preserved by every ACCEPTED Send (1), Multisend (13), EditCoinOwner (17), MintToken (28) and BurnToken (29) whose commission is paid in the base coin and whose decoded amounts are non-negative, and by every delivery rejected in the prologue (C02_partial_1_13_17_28_29 and its five per-type forms, C02_prologue_reject); for all states and transactions of those types. Everything else - the other 32 types, commissions paid through bancor or a pool, the failure-fee path, BeginBlock/EndBlock - is NOT covered by a theorem: there the property is bound only by the monitor amountsOk (the same Lean definition) evaluated on the node's export at every commit of every campaign (VIOL C02 negative-or-overflow), and by the model/node correspondence of every transaction. Tie: campaigns ledger, orders, staking.",
+}
+PROPS['C06'] = {
+    'level': 'proof', 'registered': False,
+    'modules': ['MinterProofs.Props.C06'],
+    'theorems': ['Minter.C06_check_iff_deliver', 'Minter.C06_check_ok_deliver', 'Minter.C06_deliver_ok_check', 'Minter.check_deliver_cases'],
+    'campaigns': [camp('checktx', 12, 100), camp('orders', 12, 100), camp('ledger', 8, 100)],
+    'mismatch_counts': True,
+    'assumptions': [TX_MODEL_NOTE, 'the gas-price floor and the one-transaction-per-sender mempool rule are excluded (codes 113/114), as in the property'],
+    'claim_draft': "Lean theorems about the transaction model, whose handlers are split into a validation half (shared by checkTx and deliverTx) and a deliver half (Ready.exec), for all states, transactions and oracle answers: with the gas-price floor met and the sender not in the mempool, whenever DeliverTx answers, CheckTx and DeliverTx on the same state are both 0 or both non-zero (C06_check_iff_deliver, check_deliver_cases); CheckTx 0 implies DeliverTx 0 or a FAULT of a listed deliver-only site, never a rejection (C06_check_ok_deliver); DeliverTx 0 implies CheckTx 0 (C06_deliver_ok_check). Tie: with CheckTx switched on the harness calls the real CheckTx immediately before every DeliverTx on the same state; the driver compares the node's two codes (VIOL C06 checktx-delivertx-disagree) and the model's checkTx with the node's CheckTx code (MISMATCH checktx) on every transaction; campaigns checktx, orders, ledger. Partial: the deliver-only fault sites (pool kernels' panics, SubStake on a missing stake, PairMint/PairBurn on the real reserves; listed in the header of Props/C06.lean) are excluded by hypothesis and bound by the C07 panic monitor; transactions whose swap or commission crosses a pool with limit orders are compared on the node only (VIOL C06), not by the model.",
+}
+PROPS['C15'] = {
+    'level': 'proof', 'registered': False,
+    'modules': ['MinterProofs.Props.C15'],
+    'theorems': ['Minter.C15_sell_coin', 'Minter.C15_buy_coin', 'Minter.C15_sell_all_coin', 'Minter.C15_sell_pool', 'Minter.C15_buy_pool', 'Minter.C15_sell_all_pool',
+                 'Minter.C15_add_liquidity', 'Minter.C15_remove_liquidity', 'Minter.remove_liquidity_exec_ok', 'Minter.sim_eq_real', 'Minter.sim_vs_real',
+                 'Minter.routeSellExec_ge_check', 'Minter.routeBuyExec_le_check', 'Minter.routeSellCheck_min', 'Minter.routeBuyCheck_max',
+                 'Minter.buyForSell_mono', 'Minter.sellForBuy_mono', 'Minter.bancor_move_balances'],
+    'campaigns': [camp('orders', 12, 100), camp('checktx', 12, 100), camp('ledger', 8, 100)],
+    'mismatch_counts': True,
+    'assumptions': [TX_MODEL_NOTE, 'the four bancor float functions are oracle answers (the theorems quantify over all oracles; C12 ties them to the formulas)',
+                    'PoolsOk: pools sorted, reserves > 0 (hypothesis of the route theorems; checked by the C02 monitor at every commit)'],
+    'claim_draft': "Lean theorems about the transaction model, for all states, transactions and oracle answers: an accepted SellCoin sells exactly ValueToSell and returns >= MinimumValueToBuy, BuyCoin buys exactly ValueToBuy for <= MaximumValueToSell, SellAllCoin sells the balance minus the commission taken in the sold coin; the result tags equal the amounts of the move and the balance deltas are exactly those (C15_sell_coin, C15_buy_coin, C15_sell_all_coin, bancor_move_balances). Pool routes of up to five coins (C15_sell_pool, C15_buy_pool, C15_sell_all_pool, under PoolsOk): the amount the last hop really pays out is >= MinimumValueToBuy, resp. the amount really debited is <= MaximumValueToSell, also when the commission swap moves a pool of the route - sim_eq_real/sim_vs_real show that the pool after payCommission is the simulated one (exact since /repo a9a396f), routeSellExec_ge_check/routeBuyExec_le_check/routeSellCheck_min/routeBuyCheck_max and the monotone kernels (buyForSell_mono, sellForBuy_mono) carry the check-time bound to execution. Liquidity: AddLiquidity takes exactly Volume0 and at most MaximumVolume1, RemoveLiquidity pays out >= MinimumVolume0/1, and its deliver-side panic site is dead (C15_add_liquidity, C15_remove_liquidity, remove_liquidity_exec_ok). Tie: per-transaction correspondence (code, tx.return / tx.sell_amount / tx.volume tags, every touched balance and pool) plus the node-level monitors VIOL C15 (slippage limits and tag = balance delta on every accepted conversion); campaigns orders, checktx, ledger. Partial: routes or commissions through pools that carry limit orders are outside these theorems (orders component) and bound by the node-level monitors only.",
+}
+PROPS['C21'] = {
+    'level': 'proof', 'registered': False,
+    'modules': ['MinterProofs.Props.C21'],
+    'theorems': ['Minter.redeem_conditions', 'Minter.redeem_effect', 'Minter.redeem_marks_used', 'Minter.used_mono', 'Minter.reach_used_mono',
+                 'Minter.redeem_rejected_when_used', 'Minter.redeem_once'],
+    'campaigns': [camp('mixed', 16, 200), camp('ledger', 8, 100), camp('malformed', 8, 100)],   # RedeemCheck appears in all of them
+    'mismatch_counts': True,
+    'assumptions': [TX_MODEL_NOTE, 'check signature / lock / proof recovery are oracle facts (k.* fields of the D line: the node\'s own check.Sender(), LockPubKey() and proof recovery)'],
+    'claim_draft': "Lean theorems about RedeemCheck in the transaction model, for all states, checks and redeemers: an accepted redemption implies gas price 1, the check's chain id, nonce <= 16 bytes, a recoverable issuer, existing coins, gas coin = the check's gas coin, block <= dueBlock (the due block itself is still valid - the property text says 'before'), an unused check hash, proof key = lock key for the redeemer's own address, and issuer funds (redeem_conditions); its moves are exactly: commission paid by the ISSUER in the check's gas coin, hash marked used, value issuer -> redeemer, nonce (redeem_effect, redeem_marks_used); used hashes are never cleared along any delivery history (used_mono, reach_used_mono), so a redeemed check is rejected for ever after (redeem_rejected_when_used, redeem_once). Tie: every generated RedeemCheck (valid, expired, wrong chain, wrong proof, reused) is compared with the node on code, tags and the live keys b/n/uc (used checks via IsCheckUsed); campaigns mixed, ledger, malformed. Partial: the balance-level corollary (issuer -value -fee, redeemer +value) is stated at move level only; ECDSA recovery is an oracle.",
+}
+PROPS['C22'] = {
+    'level': 'proof', 'registered': False,
+    'modules': ['MinterProofs.Props.C22'],
+    'theorems': ['Minter.C22_fresh_id', 'Minter.C22_dense_preserved', 'Minter.C22_ids_never_reused', 'Minter.reach_ncoins_mono',
+                 'Minter.create_coin_spec', 'Minter.create_token_spec', 'Minter.recreate_coin_spec', 'Minter.recreate_token_spec',
+                 'Minter.edit_owner_spec', 'Minter.mint_spec', 'Minter.create_pool_spec', 'Minter.ownerless_not_mintable', 'Minter.ownerless_stays_ownerless',
+                 'Minter.uniqueV0_create', 'Minter.uniqueV0_recreate', 'Minter.create_keeps_unique', 'Minter.recreate_keeps_unique'],
+    'campaigns': [camp('ledger', 16, 200), camp('mixed', 8, 100)],
+    'mismatch_counts': True,
+    'assumptions': [TX_MODEL_NOTE],
+    'claim_draft': "Lean theorems about the coin registry in the transaction model, for all states and transactions: a delivery creates at most one coin and its id is ncoins+1; dense ids 1..ncoins stay dense; ids are never reused along any delivery history (C22_fresh_id, C22_dense_preserved, C22_ids_never_reused, reach_ncoins_mono - by the freshIdsOk guard of successOutcome, evaluated on every run); handler specifications: CreateCoin/CreateToken, RecreateCoin/RecreateToken (owner only, old coin kept under version max+1, new coin with a fresh id), EditCoinOwner and MintToken (owner only, within max supply), CreateSwapPool (LP token ownerless) (create_coin_spec, create_token_spec, recreate_coin_spec, recreate_token_spec, edit_owner_spec, mint_spec, create_pool_spec); an ownerless coin (pool token) can neither be minted nor recreated nor get an owner (ownerless_not_mintable, ownerless_stays_ownerless); version-0 tickers stay unique across the registry steps (uniqueV0_create, uniqueV0_recreate, create_keeps_unique, recreate_keeps_unique). Tie: correspondence of every coin-creating / editing transaction (code, tx.coin_id / tx.pool_token_id tags, c keys, app ncoins); campaigns ledger, mixed. Partial: UniqueV0 is shown for the registry steps, not yet lifted to whole deliveries (needs 'no other move bumps versions'); uniqueness of LP tickers relies on pool ids (not proved).",
+}
+PROPS['C26'] = {
+    'level': 'proof', 'registered': False,
+    'modules': ['MinterProofs.Props.C26'],
+    'theorems': ['Minter.C26_after_success_free', 'Minter.C26_prologue_reject_free', 'Minter.C26_accepted_at_most_once', 'Minter.C26_failed_tx_charged_again'],
+    'campaigns': [camp('malformed', 16, 200), camp('mixed', 8, 100)],
+    'mismatch_counts': True,
+    'assumptions': [TX_MODEL_NOTE],
+    'claim_draft': "Lean theorems about the transaction model, for all states, transactions and delivery histories (Reach: any further deliveries at any heights under any oracle answers): once a transaction was accepted, delivering the same transaction again in any later state is rejected by the prologue with no moves at all - no fee (C26_after_success_free, C26_accepted_at_most_once; nonces only grow); a delivery rejected in the prologue makes no move, so repeating it is free (C26_prologue_reject_free). The remaining clause of the property is FALSE in the code and proved false on a concrete witness (C26_failed_tx_charged_again, known finding F4): a transaction that fails inside its handler pays the failure fee and keeps its nonce, so the same bytes pass the prologue again and pay again. Tie: the malformed stream re-delivers earlier transaction bytes (any recent one, and specifically ones that failed inside Run); the driver remembers every delivered byte string with its code and whether it changed the ledger and reports VIOL C26 charged-after-success (must never fire) and VIOL C26 failed-tx-charged-again (the known finding) on the real node; per-transaction correspondence as for C03/C04; campaigns malformed, mixed.",
 }
 
 
